@@ -274,7 +274,9 @@ PROPS["C08"] = {
         H("h_c08_html5"),
     ],
     "bounds": {"quick": "index lemma: all 2^64 indices per id type; interning: 3 registrations of arbitrary strings of <=1 char (thorough <=2) "
-                        "per table; built-in ids; one parsed document with a symbolic letter as prefix / attribute / PI target; ids of 6 concrete names x 3 namespaces across two html5() calls",
+                        "per table; built-in ids; one parsed document with a symbolic letter as prefix / attribute / PI target; a parsed document whose "
+                        "names are only looked up read-only (same spelling under 3 bindings x 2 sibling orders, names longer than any "
+                        "API-registered one, also on a clone); ids of 6 concrete names x 3 namespaces across two html5() calls",
                "thorough": "same"},
     "outside": "tables with more than 3 user registrations as symbolic pre-state (the index lemma carries the size dimension); "
                "hashing (HashMap is summarised as a correct map)",
